@@ -202,6 +202,76 @@ async fn ok_own_id(
         .unwrap())
 }
 
+/// A value the framework cannot serialize: the serializer's own error text is
+/// internal detail and must stay on the server (500, "Internal Server Error").
+#[derive(Debug)]
+pub struct Unser {
+    m: String,
+    status: Option<ErrorStatusCode>,
+}
+
+impl Serialize for Unser {
+    fn serialize<S: serde::Serializer>(&self, _s: S) -> Result<S::Ok, S::Error> {
+        Err(serde::ser::Error::custom(format!("internal detail {}", self.m)))
+    }
+}
+
+impl JsonSchema for Unser {
+    fn schema_name() -> String {
+        "Unser".to_string()
+    }
+    fn json_schema(gen: &mut schemars::gen::SchemaGenerator) -> schemars::schema::Schema {
+        Refused::json_schema(gen)
+    }
+}
+
+impl std::fmt::Display for Unser {
+    fn fmt(&self, f: &mut std::fmt::Formatter<'_>) -> std::fmt::Result {
+        write!(f, "unserializable error: {}", self.m)
+    }
+}
+
+impl From<HttpError> for Unser {
+    fn from(e: HttpError) -> Unser {
+        Unser { m: e.internal_message, status: Some(e.status_code) }
+    }
+}
+
+impl HttpResponseError for Unser {
+    fn status_code(&self) -> ErrorStatusCode {
+        self.status.unwrap_or(ErrorStatusCode::IM_A_TEAPOT)
+    }
+}
+
+#[derive(Deserialize, JsonSchema)]
+pub struct UnserQuery {
+    m: String,
+}
+
+#[endpoint { method = GET, path = "/unser" }]
+async fn ok_unserializable(
+    rqctx: RequestContext<SimCtx>,
+    q: Query<UnserQuery>,
+) -> Result<HttpResponseOk<Unser>, HttpError> {
+    let h = parse_sim(rqctx.request.headers());
+    let g = HGuard::enter(&rqctx.context().world, h.nonce, 36);
+    note_id(&rqctx, h.nonce);
+    g.finish();
+    Ok(HttpResponseOk(Unser { m: q.into_inner().m, status: None }))
+}
+
+#[endpoint { method = GET, path = "/cunser" }]
+async fn err_unserializable(
+    rqctx: RequestContext<SimCtx>,
+    q: Query<UnserQuery>,
+) -> Result<HttpResponseOk<Refused>, Unser> {
+    let h = parse_sim(rqctx.request.headers());
+    let g = HGuard::enter(&rqctx.context().world, h.nonce, 37);
+    note_id(&rqctx, h.nonce);
+    g.finish();
+    Err(Unser { m: q.into_inner().m, status: None })
+}
+
 macro_rules! multi {
     ($name:ident, $m:ident) => {
         #[endpoint { method = $m, path = "/multi" }]
@@ -224,6 +294,8 @@ pub fn register(api: &mut ApiDescription<SimCtx>) {
     api.register(ok_plain).unwrap();
     api.register(ok_headers).unwrap();
     api.register(ok_own_id).unwrap();
+    api.register(ok_unserializable).unwrap();
+    api.register(err_unserializable).unwrap();
     api.register(multi_get).unwrap();
     api.register(multi_put).unwrap();
     api.register(multi_delete).unwrap();
